@@ -47,10 +47,14 @@ def gen_prog(r, w):
         elif k < 0.68:
             a = reg()
             ops.append("half:%d:%d" % (newreg(), a))
-        elif k < 0.80:
+        elif k < 0.78:
             a = reg()
             ops.append("norm:%d:%d" % (newreg(), a))
-        elif k < 0.88:
+        elif k < 0.84 and defined:
+            # a decomposition whose result is kept and used by the following operations
+            a = reg()
+            ops.append("%s:%d:%d:%d" % (r.choice(["sincof", "spincof", "sprodof", "sprodof"]), newreg(), a, r.choice(VARS)))
+        elif k < 0.90:
             a = reg()
             m = ",".join("%d=%d" % (v, reg()) for v in r.sample(VARS, r.randint(0, 3)))
             ops.append("sym:%d:%d:%s:%s" % (newreg(), a, r.choice(["id", "id", "none"]), m))
@@ -99,6 +103,51 @@ def gen_norm_prog(r, w):
     if r.random() < 0.4:
         ops.append("sym:3:7:id:%d=6" % vs[0])
         ops.append("norm:3:3")
+    return ";".join(ops)
+
+
+def gen_decomp_prog(r, w):
+    """decompositions of decomposition results: a sum of monomials that all contain one variable v
+    (products taken in both operand orders, the bare variable, multiples), its prod_of(v) kept in a
+    register and then observed, added to, decomposed again and substituted into"""
+    M = 1 << w
+    vs = r.sample(VARS, 4)
+    v = vs[0]
+    ops = ["val:7:0"]
+    for i in range(r.randint(2, 5)):
+        shape = r.choice([[], [1], [1], [2], [1, 2], [2, 1], [1, 1], [3]])
+        ops.append("val:0:%d" % r.choice([1, 1, M - 1, 2, 3, M >> 1, r.below(M) or 1]))
+        ops.append("var:1:%d" % v)
+        if r.random() < 0.5:
+            ops.append("mul:0:0:1")          # c * v
+            for k in shape:
+                ops.append("var:1:%d" % vs[k])
+                ops.append("mul:0:%s" % r.choice(["0:1", "1:0"]))
+        else:
+            first = True
+            for k in shape:
+                ops.append("var:2:%d" % vs[k])
+                ops.append("mul:1:%s" % r.choice(["1:2", "2:1"]))
+            ops.append("mul:0:%s" % r.choice(["0:1", "1:0"]))
+        ops.append("add:7:%s" % r.choice(["7:0", "0:7"]))
+    ops.append("sprodof:6:7:%d" % v)
+    ops.append("cpart:6")
+    for x in vs[1:3]:
+        ops.append("incof:6:%d" % x)
+        ops.append("pincof:6:%d" % x)
+    ops.append("val:5:%d" % r.choice([1, 2, M - 1]))
+    ops.append("add:4:%s" % r.choice(["6:5", "5:6"]))
+    ops.append("cpart:4")
+    ops.append("const:4")
+    ops.append("add:3:6:6")
+    ops.append("sincof:2:6:%d" % vs[1])
+    ops.append("cpart:2")
+    ops.append("spincof:2:4:%d" % vs[2])
+    ops.append("cpart:2")
+    ops.append("sprodof:1:6:%d" % vs[1])
+    ops.append("cpart:1")
+    ops.append("norm:0:6")
+    ops.append("sym:0:6:id:%d=4" % vs[1])
     return ";".join(ops)
 
 
@@ -190,6 +239,22 @@ def spec_check(w, prog, envs, outs):
                         return "%s: value %s, substitution into the operand gives %s" % (op, vals, want)
                     regs[int(f[1])] = vals
                     exprs[int(f[1])] = parse_parts(_)
+            elif k in ("sincof", "sprodof", "spincof"):
+                if out != "none":
+                    v = int(f[3])
+                    want = regs[int(f[2])]
+                    if k == "spincof":
+                        e, mu = out.rsplit("*", 1)
+                        _, vals = parse_full(e)
+                        if [(vals[j] + int(mu) * envv(j, v)) % M for j in range(len(envs))] != want:
+                            return "%s: mul*var + rest does not recompose" % op
+                    else:
+                        _, vals = parse_full(out)
+                        got = [(vals[j] + envv(j, v)) % M for j in range(len(envs))] if k == "sincof" else [(vals[j] * envv(j, v)) % M for j in range(len(envs))]
+                        if got != want:
+                            return "%s: does not recompose" % op
+                    regs[int(f[1])] = vals
+                    exprs[int(f[1])] = parse_parts(_)
             elif k == "incof":
                 if out != "none":
                     _, vals = parse_full(out)
@@ -254,7 +319,8 @@ def run(res):
         r = rng.fork()
         w = r.choice([8, 8, 16, 32, 64])
         envs = gen_envs(r, w)
-        cases.append((w, gen_norm_prog(r, w) if r.random() < 0.3 else gen_prog(r, w), envs))
+        k = r.random()
+        cases.append((w, gen_norm_prog(r, w) if k < 0.3 else gen_decomp_prog(r, w) if k < 0.45 else gen_prog(r, w), envs))
     lines = ["expr|%d|%s|%s" % (w, p, "/".join(",".join(str(x) for x in e) for e in envs)) for (w, p, envs) in cases]
     model = C.run_lines(driver, lines)
     shape_bad = [l for l, m in zip(lines, model) if m.endswith("SHAPE-VIOLATED")]
@@ -293,8 +359,8 @@ def run(res):
         "op_histogram": hist, "stats": stats,
     })
     if shape_bad:
-        res.violation("an expression reachable through the public API violates the shape hypothesis (singles_unique/const_first) of the _partial decomposition theorems: " + shape_bad[0][:300],
-                      {"case": shape_bad[0], "theorems": ["C15_inc_of_partial", "C15_prod_inc_of_partial", "C15_constant_part_partial"]}, no_failing_input=True)
+        res.violation("an expression built through the public API violates the shape (singles_unique/const_first) that C15_built_shape proves for the model: the model no longer describes the code: " + shape_bad[0][:300],
+                      {"case": shape_bad[0], "theorems": ["C15_built_shape", "C15_inc_of", "C15_prod_inc_of", "C15_constant_part"]}, no_failing_input=True)
     res.assumptions += ["Expr.v is hand-written (hash maps as association lists + the same final sort); tied structurally"]
     if broken and not res.violations:
         res.violation("proof side of C15 no longer checks: " + "; ".join(broken)[:1500], {"broken": broken, "theorem_file": "coq/theories/Props/C15.v"}, no_failing_input=True)
